@@ -9,7 +9,8 @@ Record cst := mkC {
   c_fresh : N;                (* identifier the next connection must carry *)
   c_sys : bool;               (* the sysctl, replayed from the successful writes *)
   c_read : option bool;       (* value read by the dial that opened the current connection *)
-  c_pending : option bool;    (* autoconf was (tried to be) disabled: value that must be put back *)
+  c_pending : option bool;    (* autoconf was (tried to be) disabled: value that must be put back
+                                 (need not be when switching it off was denied: nothing changed) *)
   c_denied : bool;            (* ... and that write was denied *)
   c_failed : bool;            (* some set / restore call failed so far *)
   c_lastrest : option sysres  (* answer to the restore of the clean-up in progress *)
@@ -22,13 +23,13 @@ Definition is_none {A} (o : option A) : bool := match o with None => true | Some
 
 (* "put back to the value it had before": whenever nothing is held and no set/restore call failed *)
 Definition rest_ok (a0 : bool) (s : cst) : bool :=
-  is_none (c_open s) && is_none (c_pending s) && (c_failed s || Bool.eqb (c_sys s) a0).
+  is_none (c_open s) && (is_none (c_pending s) || c_denied s) && (c_failed s || Bool.eqb (c_sys s) a0).
 
 Definition cstep (m : mode) (a0 : bool) (s : cst) (ev : event) : option cst :=
   match ev with
   | OpenConn k =>
       (* the previous connection is gone and autoconf is back before the next one is opened *)
-      if is_none (c_open s) && is_none (c_pending s) && N.eqb k (c_fresh s) then
+      if is_none (c_open s) && (is_none (c_pending s) || c_denied s) && N.eqb k (c_fresh s) then
         Some (mkC (Some k) (k + 1)%N (c_sys s) None None false (c_failed s) None)
       else None
   | GetAuto r =>
